@@ -447,7 +447,26 @@ func (g *cityGen) anyExistingID() (b6.FeatureID, bool) {
 	if len(ids) == 0 {
 		return b6.FeatureID{}, false
 	}
+	// bias towards paths routed over points that were added after the base
+	// city: chains of new features (new point <- new path <- relations) are
+	// where the order of exported changes and copy-up bookkeeping matter
+	if over := g.pathsOverNewPoints(); len(over) > 0 && g.rc.Pct(35) {
+		return over[g.rc.Draw(len(over))], true
+	}
 	return ids[g.rc.Draw(len(ids))], true
+}
+
+func (g *cityGen) pathsOverNewPoints() []b6.FeatureID {
+	var out []b6.FeatureID
+	for _, id := range g.sortedIDs(b6.FeatureTypePath) {
+		for _, m := range g.specs[id].Path {
+			if m.Point >= maxPoints {
+				out = append(out, id)
+				break
+			}
+		}
+	}
+	return out
 }
 
 func (g *cityGen) relationSpec(id b6.FeatureID, allowCycles bool) *fspec {
